@@ -66,8 +66,24 @@ def cluster(draw, max_items):
 
 
 @st.composite
+def ladder(draw, max_items):
+    """evenly spaced labels that overlap their neighbours but not their second or third neighbours: spread over
+    layers they are sparse where they belong while their stubs are squeezed together nearer the axis"""
+    w = draw(st.sampled_from([30, 50, 50, 80]))
+    stride = draw(st.sampled_from([0.35, 0.5, 0.7, 0.9, 1.1])) * w
+    n = draw(st.integers(4, max(4, min(30, max_items))))
+    start = draw(st.integers(-50, 500))
+    return [[round(start + i * stride, 3), w] for i in range(n)]
+
+
+@st.composite
 def labels(draw, tier, max_total=None):
     cap = max_total or (70 if tier == "quick" else 200)
+    if draw(st.integers(0, 7)) == 0:
+        out = draw(ladder(cap))
+        if draw(st.booleans()):
+            out = out + draw(cluster(max(1, min(10, cap - len(out))))) if cap - len(out) > 0 else out
+        return [list(x) for x in (draw(st.permutations(out)) if draw(st.booleans()) else out)]
     big = tier == "thorough" and draw(st.integers(0, 9)) == 0
     k = draw(st.integers(1, 6))
     out = []
@@ -138,6 +154,9 @@ def options(draw, lbls, bounds_emphasis=False, algorithms=("overlap", "overlap",
         if W <= 0:
             W = 20
         o["maxPos"] = (lo if lo is not None else draw(st.integers(-100, 300))) + W
+        if draw(st.integers(0, 11)) == 0:
+            # an axis that ends exactly at 0 (bounds are numbers; 0 is as good as any)
+            o["minPos"], o["maxPos"] = -W, 0
     return o
 
 
@@ -148,7 +167,12 @@ def layout_spec(draw, tier, bounds_emphasis=False, max_total=None, algorithms=No
     if algorithms:
         kw["algorithms"] = algorithms
     opts = draw(options(lbls, bounds_emphasis, **kw))
-    return dict(labels=lbls, opts=opts)
+    spec = dict(labels=lbls, opts=opts)
+    # how the configuration reaches the engine: constructor (default), set_options() afterwards, or split between the two
+    via = draw(st.sampled_from(["ctor", "ctor", "ctor", "set_options", "split"]))
+    if via != "ctor" and opts:
+        spec["via"] = via
+    return spec
 
 
 # ------------------------------------------------------------------ builder / observation
@@ -165,12 +189,30 @@ def run_layout(spec, ctx=None):
 
     def thunk():
         nodes = build_nodes(spec["labels"])
-        f = Force(dict(spec["opts"]))
+        f = make_force(spec)
         f.nodes(nodes)
         f.compute()
         return f, nodes
 
     return guarded(lambda: lib_call(thunk), ctx)
+
+
+def make_force(spec):
+    from labella.force import Force
+
+    opts, via = dict(spec["opts"]), spec.get("via", "ctor")
+    if via == "set_options":
+        f = Force()
+        f.set_options(opts)
+    elif via == "split":
+        keys = sorted(opts)
+        first = {k: opts[k] for k in keys[::2]}
+        rest = {k: opts[k] for k in keys[1::2]}
+        f = Force(first)
+        f.set_options(rest)
+    else:
+        f = Force(opts)
+    return f
 
 
 def target(nd):
